@@ -10,6 +10,7 @@ import (
 	"encoding/hex"
 	"fmt"
 	"strings"
+	"sync"
 	"testing"
 	"time"
 
@@ -386,14 +387,18 @@ func TestVxC05Conversation(t *testing.T) {
 			node.Handler = vxBasicHandler
 			seen := map[string]int{}
 			fired := false
+			var imu sync.Mutex // Intercept runs on every connection's reader goroutine
 			node.Intercept = func(rc *vnode.ReqCtx) bool {
 				step := vxStepOf(rc)
+				imu.Lock()
 				n := seen[step]
 				seen[step]++
 				if step != c.Step || n != c.Nth || fired {
+					imu.Unlock()
 					return false
 				}
 				fired = true
+				imu.Unlock()
 				r := *c.Resp
 				r.Version = rc.Req.Header.Version
 				r.Stream = rc.Req.Header.Stream
@@ -438,7 +443,9 @@ func TestVxC05Conversation(t *testing.T) {
 					for _, sc := range node.Conns() {
 						sc.SendRaw(b)
 					}
+					imu.Lock()
 					fired = true
+					imu.Unlock()
 					time.Sleep(3 * time.Millisecond)
 				}
 				if s != nil {
@@ -465,9 +472,11 @@ func TestVxC05Conversation(t *testing.T) {
 				for _, o := range out {
 					k.Class(fmt.Sprintf("%s:%s", o.what, vxShortErr(o.err)))
 				}
+				imu.Lock()
 				if fired {
 					k.Class("odd-response-delivered")
 				}
+				imu.Unlock()
 				return nil
 			case <-time.After(25 * time.Second):
 				return fmt.Errorf("the calls did not return within 25 s after step %s (occurrence %d) was answered with %s (mutation %s):\n%s", c.Step, c.Nth, c.Resp.Kind, c.Mut.Kind, vxGoroutineDump())
